@@ -30,7 +30,8 @@ def run(tier, seed, jobs):
     # primitives instantiated outside of any event loop (lazy adapters)
     for v, m, f in ([(1, 1, False)] if tier == "quick" else [(1, 1, False), (1, 2, True), (0, 1, False)]):
         configs.append({"mod": MOD, "cls": "SemModel",
-                        "params": {"n": 2, "value": v, "max": m, "fast": f, "adapter": True},
+                        "params": {"n": 2, "value": v, "max": m, "fast": f, "adapter": True,
+                                   "dirty": True},
                         "opts": o})
     configs.append({"mod": MOD, "cls": "LimModel",
                     "params": dict(n=2, total=1, totals=[1, 2], foreign=True, adapter=True),
